@@ -1,6 +1,7 @@
 package genwl
 
 import (
+	"bytes"
 	"fmt"
 	"os"
 	"time"
@@ -118,6 +119,21 @@ func c06Check(cfg *config, t target, d *dynamicpb.Message, v *variant, seedKey s
 		}
 		if sz != len(b2) {
 			out.fail, out.what = "size-ne-marshal-len", fmt.Sprintf("after Unmarshal of input with unknown fields Size()=%d but Marshal() returned %d bytes", sz, len(b2))
+			return
+		}
+		// "re-emitted by the next Marshal": the caller owns the returned bytes; reusing that buffer (here: inverting it)
+		// must not change what the message holds
+		keep := append([]byte(nil), b2...)
+		for i := range b2 {
+			b2[i] ^= 0xFF
+		}
+		var b3 []byte
+		if pi := monitor.Try(func() { b3, merr = fm.Marshal() }); pi != nil || merr != nil {
+			out.fail, out.what = "second-marshal-failed", fmt.Sprintf("a second Marshal failed after the caller reused the buffer the first one returned (err=%v)", merr)
+			return
+		}
+		if !bytes.Equal(b3, keep) && !hasBigMap(ref.ProtoReflect()) {
+			out.fail, out.what = "second-marshal-differs", "after the caller overwrote the buffer returned by Marshal, the next Marshal of the unchanged message returns other bytes"
 		}
 		return
 	}
